@@ -15,7 +15,10 @@ RULE = ("every batch-free program (leaves: child task | ConstFuture; a body = 0.
         "@async_proxy returning fn.asynq(), mixed by task id mod 4 over function / method / proxy / asynq.async_call; "
         "constants are ConstFuture / a non-generator @asynq() method / an @async_proxy returning ConstFuture, by style) x 3 "
         "asyncio_fn modes (none / tasks with even id / tasks with odd id are declared with an explicit hand-written async "
-        "def), both builds. Each (program, configuration) is executed twice: fn(code) on the asynq scheduler and "
+        "def), plus an exception-valued variant of the program (every constant and every task return value is an Exception "
+        "INSTANCE used as an ordinary value, and an except clause keeps the caught exception object inside the returned "
+        "value) under the mixed style with no / odd-id explicit asyncio_fn on the <=1-deviation rungs and with none on the "
+        "2-deviation rungs, both builds. Each (program, configuration) is executed twice: fn(code) on the asynq scheduler and "
         "`await fn.asyncio(code)` from a driver coroutine on one long-lived event loop stepped one iteration at a time next "
         "to an unrelated watcher coroutine. evals = executions (both engines); states = (program, configuration) pairs "
         "judged; transitions = body steps (starts + resumptions at yields) over all executions; non-trivial = programs with "
@@ -25,7 +28,10 @@ EXPLANATION = ("exhaustive product of the bounded batch-free program family with
                "log is checked for await-all-before-raise, and asynq.is_asyncio_mode() is sampled at every body step and "
                "around the await")
 ASSUMPTIONS = [
-    "values are opaque tokens; bodies have no side effects other than the harness log",
+    "values are opaque tokens (tuples; in the exception-valued variant Exception instances HVal(token), and caught "
+    "exception objects) compared after normalisation to (type name, args), never by identity; bodies have no side effects "
+    "other than the harness log",
+    "a value that is an exception object is just a value: only what a body actually raised may be raised at a yield",
     "asynq.result(), ErrorFuture and lazily computed Future are outside the stated alphabet (trees of tasks, constant "
     "futures, None, nested structures, raises, try/except): they are run as a separate informational family that only "
     "produces counters",
@@ -48,9 +54,11 @@ MENU = ["leaf:n", "shape:T", "shape:D", "shape:nest", "shape:wrap1", "ins:yempty
 MENU_SYNC = MENU + ["ins:sync"]
 INFO_MENU = ["ins:res", "leaf:ef", "leaf:lzok", "leaf:lzraise"]
 
-ALL_CFG = [[s, a] for a in (0, 1, 2) for s in (0, 1, 2, 3)]
-CFG_FEW = [[0, 0], [3, 0], [3, 1], [3, 2]]
-CFG_ONE = [[3, 0]]
+# [style, asyncio_fn mode, xv]; xv=1: exception-valued variant (every constant and every task return value is an
+# Exception instance used as an ordinary value; an except clause keeps the caught exception object in the value)
+ALL_CFG = [[s, a, 0] for a in (0, 1, 2) for s in (0, 1, 2, 3)] + [[3, 0, 1], [3, 2, 1]]
+CFG_FEW = [[3, 0, 0], [3, 1, 0], [3, 2, 0], [3, 0, 1]]
+CFG_ONE = [[3, 0, 0]]
 
 # (max size n, max deviations k, menu, configurations)
 MENU_TRY = ["ins:raise", "wrap:try"]  # a failure is only *caught* with >=2 deviations: deeper rungs for this pair
@@ -265,7 +273,7 @@ def jobs(tier, seed):
     n, k = INFO_LADDER[tier]
     for size in range(1, n + 1):
         for bases in _chunked(bf_programs(size), 16):
-            yield {"family": "info", "bases": bases, "menu": INFO_MENU, "k": k, "cfgs": [[0, 0]]}
+            yield {"family": "info", "bases": bases, "menu": INFO_MENU, "k": k, "cfgs": [[0, 0, 0]]}
 
 
 def worker_init(env):
@@ -293,8 +301,13 @@ class Ref(object):
         else:
             self.r1a, self.exp_a = r1, exp
         self.ych = A.yields_children(prog)
+        self._xv = None
         self.nontrivial = prog.ntasks >= 2 or "raise" in prog.features or self.has_sync
         self.sync_callees = _sync_callees(prog.root.stmts, []) if self.has_sync else []
+
+
+def _xv_exp(A, exp):
+    return ("ok", A.xv_expected(exp[1])) if exp[0] == "ok" else exp
 
 
 def _sync_callees(stmts, acc):
@@ -324,15 +337,17 @@ def _sync_callees_struct(s, acc):
         _sync_callees(s[2].stmts, acc)
 
 
-def _cmp_outcome(A, out, exp):
-    """None if the real outcome equals the reference outcome, else a description"""
+def _cmp_outcome(A, out, exp, xv=0):
+    """None if the real outcome equals the reference outcome, else a description.  xv: the real value is normalised
+    (exception objects -> type + args) and `exp` is already the normalised expectation"""
     if out is None:
         return "no outcome"
     if out[0] == "ok":
         if exp[0] != "ok":
             return "returned %r, reference raises %r" % (out[1], exp[1])
-        if not A.same(out[1], exp[1]):
-            return "returned %r, reference value %r" % (out[1], exp[1])
+        got = A.norm(out[1]) if xv else out[1]
+        if not A.same(got, exp[1]):
+            return "returned %r, reference value %r" % (got, exp[1])
         return None
     t = P.tok(out[1])
     if exp[0] == "ok":
@@ -376,13 +391,19 @@ def _order_check(log, ych, found, mode):
 STYLE_NAMES = ("fn", "method", "proxy", "mix")
 
 
-def judge(ref, style, aio, out):
+def judge(ref, style, aio, xv, out):
     """runs one configuration on both engines; appends violations; returns number of executions"""
     from .. import aio as A
     prog = ref.prog
     found = []
-    rs, outs = A.run_sync(prog, style, aio)
-    ra, outa, problems = A.run_aio(prog, style, aio)
+    rs, outs = A.run_sync(prog, style, aio, xv)
+    ra, outa, problems = A.run_aio(prog, style, aio, xv)
+    if xv:
+        if ref._xv is None:
+            ref._xv = (_xv_exp(A, ref.exp_s), _xv_exp(A, ref.exp_a))
+        exp_s, exp_a = ref._xv
+    else:
+        exp_s, exp_a = ref.exp_s, ref.exp_a
     found.extend(problems)
     out["transitions"] += sum(1 for ev in rs.log if ev[0] in "srx") + sum(1 for ev in ra.log if ev[0] in "srx")
     cnt = out["counters"]
@@ -402,10 +423,10 @@ def judge(ref, style, aio, out):
                 refused_ok = False
                 break
     # ---- outcomes vs the sequential reference
-    d = _cmp_outcome(A, outs, ref.exp_s)
+    d = _cmp_outcome(A, outs, exp_s, xv)
     if d is not None:
         found.append(("sync-outcome", "fn(code) on the asynq scheduler %s" % d))
-    d = _cmp_outcome(A, outa, ref.exp_a) if refused_ok else None
+    d = _cmp_outcome(A, outa, exp_a, xv) if refused_ok else None
     if d is not None:
         found.append(("asyncio-outcome", "await fn.asyncio(code) %s" % d))
     # ---- the two engines against each other
@@ -413,13 +434,14 @@ def judge(ref, style, aio, out):
         if outs[0] != outa[0]:
             found.append(("asyncio-vs-sync", "fn(code) gives %r, await fn.asyncio(code) gives %r" % (outs, outa)))
         elif outs[0] == "ok":
-            if not A.same(outs[1], outa[1]):
-                found.append(("asyncio-vs-sync", "fn(code) returns %r, await fn.asyncio(code) returns %r" % (outs[1], outa[1])))
+            vs, va = (A.norm(outs[1]), A.norm(outa[1])) if xv else (outs[1], outa[1])
+            if not A.same(vs, va):
+                found.append(("asyncio-vs-sync", "fn(code) returns %r, await fn.asyncio(code) returns %r" % (vs, va)))
         else:
             es, ea = outs[1], outa[1]
             if type(es) is not type(ea) or es.args != ea.args:
                 found.append(("asyncio-vs-sync", "fn(code) raises %r, await fn.asyncio(code) raises %r" % (es, ea)))
-        ps, pa = A.strip_flags(rs.log), A.strip_flags(ra.log)
+        ps, pa = A.strip_flags(rs.log, xv), A.strip_flags(ra.log, xv)
         if ps != pa:
             for tid in sorted(set(ps) | set(pa)):
                 if ps.get(tid) != pa.get(tid):
@@ -476,6 +498,8 @@ def judge(ref, style, aio, out):
     if found:
         feats = sorted(prog.features) + ["style:" + STYLE_NAMES[style], "aiofn:%d" % aio,
                                          "outcome:" + ("raise" if failed else "return")]
+        if xv:
+            feats.append("values:exception-objects")
         if style == 3:
             if any(tid % 4 == 3 for tid in st_s | st_a):
                 feats.append("route:async_call")
@@ -489,7 +513,7 @@ def judge(ref, style, aio, out):
             cnt["viol:" + sig] = cnt.get("viol:" + sig, 0) + 1
             if len(out["violations"]) < MAX_VIOL_PER_JOB:
                 out["violations"].append({"sig": sig, "msg": msg, "features": feats,
-                                          "case": {"prog": prog.term, "style": style, "aio": aio, "family": "main"}})
+                                          "case": {"prog": prog.term, "style": style, "aio": aio, "xv": xv, "family": "main"}})
     return 2
 
 
@@ -523,12 +547,14 @@ def run(job, env):
             cnt["programs_dev%d" % nd] = cnt.get("programs_dev%d" % nd, 0) + 1
             if ref.nontrivial:
                 out["nontrivial"] += 1
-            for style, aio in job["cfgs"]:
+            for style, aio, xv in job["cfgs"]:
                 if ref.has_sync and aio:
                     cnt["skipped_sync_call_with_explicit_asyncio_fn"] = cnt.get("skipped_sync_call_with_explicit_asyncio_fn", 0) + 1
                     continue
-                out["evals"] += judge(ref, style, aio, out)
+                out["evals"] += judge(ref, style, aio, xv, out)
                 out["states"] += 1
+                if xv:
+                    cnt["states_with_exception_objects_as_values"] = cnt.get("states_with_exception_objects_as_values", 0) + 1
             if len(out["samples"]) < 1 and ref.nontrivial and nd == job["k"]:
                 out["samples"].append({"program": term, "deviations": nd, "reference": repr(ref.exp_a)})
     return out
@@ -569,12 +595,12 @@ def replay(case, env):
     prog = P.compile_prog(term)
     out = _new_out()
     ref = Ref(prog)
-    judge(ref, case["style"], case["aio"], out)
+    judge(ref, case["style"], case["aio"], case.get("xv", 0), out)
     return out["violations"]
 
 
 def finish(acc, tier):
-    return {"bounds": {"ladder (size<=n, deviations<=k, menu, [style, asyncio_fn mode])": LADDER[tier],
+    return {"bounds": {"ladder (size<=n, deviations<=k, menu, [style, asyncio_fn mode, exception-valued variant])": LADDER[tier],
                        "styles": list(STYLE_NAMES), "asyncio_fn modes": ["none", "even task ids explicit", "odd task ids explicit"],
                        "informational family (size<=n, deviations<=k, menu)": list(INFO_LADDER[tier]) + [INFO_MENU]},
             "technique": TECHNIQUE, "engine": ENGINE}
